@@ -7,6 +7,10 @@ ENGINE = "K"
 
 FMT = "kani::stub(alloc::fmt::format, crate::c19::stub_format)"
 PEER = "kani::stub(std::net::TcpStream::peer_addr, crate::c19::stub_peer_addr)"
+MARKERS = ["kani::stub(humphrey_server::cache::Cache::get, crate::c19::stub_cache_get)",
+           "kani::stub(std::fs::File::open, crate::c19::stub_file_open)",
+           "kani::stub(humphrey::route::try_find_path, crate::c19::stub_try_find_path)",
+           "kani::stub(humphrey::http::proxy::proxy_request, crate::c19::stub_proxy_request)"]
 
 META = {
     "functions_encoded": [
@@ -16,12 +20,17 @@ META = {
         "std: Vec<IpAddr>::contains / IpAddr equality (compiled std)",
     ],
     "reference_model": "inline: origin in list => 403 with the fixed body; verify_connection == !(mode == block && peer in list)",
-    "stubs": ["alloc::fmt::format -> empty string (log lines are not the subject)", "TcpStream::peer_addr -> arbitrary IPv4 peer (connection harness)"],
+    "stubs": ["Cache::get, File::open, try_find_path, proxy_request -> markers that fail the proof if reached (a blacklisted request must reach none of them)", "alloc::fmt::format -> empty string (log lines are not the subject)", "TcpStream::peer_addr -> arbitrary IPv4 peer (connection harness)"],
     "assumes": ["the Request is constructed directly with a symbolic origin address (the X-Forwarded-For -> origin derivation in Address::from_headers is outside: dyn Error)",
-                "file system / cache / upstream are NOT stubbed: if a handler reached them for a listed origin, Kani would report the unsupported foreign call"],
+                "natively (replay) nothing is stubbed: the nonexistent paths/targets make a reached file system or upstream fail visibly"],
     "outside_bounds": ["everything at socket level (closing without a response in block mode, real connections)", "the 'served normally' direction for file/directory/proxy routes (file system, network)",
                        "blacklists with more than 2 entries; IPv6 addresses other than ::a:b"],
 }
+
+
+# global unwind 2 (the drop glue of Arc<AppState> -> Config -> Vec<HostConfig> -> ... is explored on every Arc drop; all those vectors are
+# empty, which the unwinding assertions confirm); the harness' own loops get their real bounds
+UW = [("src/lib.rs", "bytes", 6), ("src/c19.rs", "listed", 4), ("src/c19.rs", "unlisted_redirect", 4), ("src/c19.rs", "connection", 4), ("slice/iter/macros.rs", "contains", 4), ("slice/cmp.rs", "contains", 4), ("@raw", "memcmp.0", 24)]
 
 
 def harnesses():
@@ -33,14 +42,14 @@ def harnesses():
                 if v6 and (n == 2 or route in (1,)):
                     continue
                 tier = "quick" if (n == 1 and not v6) or (route == 0 and v6) or (route == 3 and n == 2) else "thorough"
-                hs.append(H("c19_listed_%s_n%d%s" % (R[route], n, "_v6" if v6 else ""), "listed::<_, %d, %d, %d>" % (n, route, v6), 26, tier,
+                hs.append(H("c19_listed_%s_n%d%s" % (R[route], n, "_v6" if v6 else ""), "listed::<_, %d, %d, %d>" % (n, route, v6), 2, tier,
                             "%s route, %d symbolic %s list entries, origin symbolic and listed, mode and cache symbolic: 403 + fixed body, no FS/cache/upstream" % (R[route], n, "IPv6" if v6 else "IPv4"),
-                            attrs=[FMT], timeout=1800, mem_gb=10))
+                            attrs=[FMT] + MARKERS, timeout=900, mem_gb=12, unwindset=UW))
     for n in (0, 1, 2):
-        hs.append(H("c19_unlisted_redirect_n%d" % n, "unlisted_redirect::<_, %d>" % n, 8, "quick" if n == 1 else "thorough",
-                    "redirect route, origin not among %d symbolic entries: 301 with Location" % n, attrs=[FMT], timeout=1800, mem_gb=10))
-        hs.append(H("c19_connection_n%d" % n, "connection::<_, %d>" % n, 8, "quick" if n in (1, 2) else "thorough",
-                    "verify_connection with %d symbolic entries, symbolic peer and mode: refused iff block mode and listed" % n, attrs=[FMT, PEER], timeout=1800, mem_gb=10))
+        hs.append(H("c19_unlisted_redirect_n%d" % n, "unlisted_redirect::<_, %d>" % n, 2, "quick" if n == 1 else "thorough",
+                    "redirect route, origin not among %d symbolic entries: 301 with Location" % n, attrs=[FMT], timeout=900, mem_gb=12, unwindset=UW))
+        hs.append(H("c19_connection_n%d" % n, "connection::<_, %d>" % n, 2, "quick" if n in (1, 2) else "thorough",
+                    "verify_connection with %d symbolic entries, symbolic peer and mode: refused iff block mode and listed" % n, attrs=[FMT, PEER], timeout=900, mem_gb=12, unwindset=UW))
     for h in hs:
         h.module = MODULE
     return hs
